@@ -326,6 +326,7 @@ def run(ctx):
     check_operators(ctx, exe, runner, hv, viol)
     check_solvers(ctx, exe, runner, hv, viol)
     check_solvers_vars(ctx, exe, runner, hv, viol)
+    check_entry_points(ctx, exe, runner, hv, viol)
 
     ctx.cov['disagreements'] = st['ndis']
     ctx.cov['rule'] = ('evaluation = one (mesh, query point) row of a projection matrix / one (mesh, Matern model, vector) operator application / '
@@ -1354,6 +1355,90 @@ def check_solvers_vars(ctx, exe, runner, hv, viol):
                 ref_ = sum(math.log(p_) for p_ in pva) - lq + sum(math.log(v_) for v_ in va_ref)
                 if abs(float(undy(ld1)) - ref_) > 1e-7 * (1 + abs(ref_)):
                     viol('spde-likelihood:log-determinant', 'locator V: computeLogDet (Cholesky) %.12g, from the matrices %.12g' % (float(undy(ld1)), ref_), rep)
+
+def check_entry_points(ctx, exe, runner, hv, viol):
+    """every public solve entry point of src/LinearOp on one kriging system (Q + A'A/s2) x = A'z/s2: SPDEOp / SPDEOpMatrix kriging and
+    krigingWithGuess (VectorDouble and span overloads), LinearOpCGSolver solve / solveWithGuess (VectorDouble, span, Eigen::Map),
+    PrecisionOpMultiConditional[Cs]::evalInverse (cold and with a user initial value), for the guesses zero / random / half the solution /
+    the solution / constant: each must return the solution of the system (exact in the model, kind 8) up to its own tolerance"""
+    quick = ctx.quick(); rng = ctx.rng
+    ncase = 8 if quick else 60
+    specs = []
+    for _ in range(ncase):
+        while True:
+            ts = gen_turbo(rng, ndim=rng.choice([1, 2, 2, 3]), maxn=5, allow_sel=False)
+            if 4 <= math.prod(ts['nx']) <= 26: break
+        if ts['ang']: hv.ask(ts['n'], ts['ang'])
+        specs.append(ts)
+    hv.run(ctx, exe)
+    cases = []
+    for ts in specs:
+        M = turbo_M(ts, hv)
+        cv = gen_cov(rng, ts['n'])
+        nd = rng.randint(2, 6)
+        pts = [point_of_u(ts, M, gen_point_u(rng, ts, 'inside')) for _ in range(nd)]
+        z = [F(rng.randint(-32, 32), 8) for _ in range(nd)]
+        nug = cv['sill'] * rng.choice([F(1, 4), F(1, 2), F(1)])
+        guess = [F(rng.randint(-16, 16), 8) for _ in range(7)]
+        cases.append([15, [0] + turbo_sx(ts, hv), cov_sx(cv), [[dy(x) for x in p] for p in pts], [dy(x) for x in z], dy(nug), [dy(x) for x in guess]])
+        ctx.dist('entry_points_%dd' % ts['n'])
+    cf = write_cases(ctx, 'entries', cases)
+    rc_i, impl = run_impl(ctx, exe, cf, timeout=900)
+    kmodel = {}
+    if runner is not None:
+        kc_ = []; kidx = []
+        for i, c in enumerate(cases):
+            ii = impl[i] if i < len(impl) else None
+            if ii is None or ii[0] == -997: continue
+            kc_.append([8] + c[1][1:7] + [c[3], ii[0], ii[4], ii[5], ii[6], [c[5]] * ii[1], c[4]]); kidx.append(i)
+        if kc_:
+            kf_ = write_cases(ctx, 'entriesmodel', kc_)
+            rc_m, kres = run_model(ctx, runner, kf_, jobs=min(NPROC, len(kc_)))
+            if len(kres) != len(kc_): print('ERROR: model runner returned %d results for %d entry-point cases' % (len(kres), len(kc_))); sys.exit(3)
+            for i, r in zip(kidx, kres): kmodel[i] = r
+    for i, c in enumerate(cases):
+        ii = impl[i] if i < len(impl) else None
+        rep = {'case': sx_str(c), 'how': 'harness/C15.cpp kind 15'}
+        if ii is None or ii[0] == -997:
+            viol('crash:spde-solve-entry-points', 'the harness produced no answer (crash) while calling the solve entry points', rep); continue
+        n, ndat, Q, A, Sd, lamd, cfd, sols = ii
+        Q = [[float(undy(x)) for x in r] for r in Q]
+        nug = float(undy(c[5])); z = [float(undy(x)) for x in c[4]]
+        Ad = [[0.] * n for _ in range(ndat)]
+        for r, row in enumerate(A[2]):
+            for e in row: Ad[r][e[0]] = float(undy(e[1]))
+        Mm = [[Q[a][b] + sum(Ad[r][a] * Ad[r][b] for r in range(ndat)) / nug for b in range(n)] for a in range(n)]
+        b = [sum(Ad[r][a] * z[r] for r in range(ndat)) / nug for a in range(n)]
+        xs = solve_float(Mm, b)
+        if i in kmodel and kmodel[i][0][0] == 1: xs = [float(unq(x)) for x in kmodel[i][0][1]]      # exact solution of the model
+        inv = [solve_float(Mm, [1. if a == k else 0. for a in range(n)]) for k in range(n)]
+        ninv = max(sum(abs(inv[k][a]) for k in range(n)) for a in range(n))
+        mn = max(sum(abs(x) for x in r) for r in Mm); cond = mn * ninv
+        nb = math.sqrt(sum(x * x for x in b)) or 1.
+        xn = 1 + max(abs(x) for x in xs)
+        g_named = {'zero': [0.] * n, 'random': [float(undy(c[6][k % len(c[6])])) for k in range(n)], 'half': [0.5 * x for x in xs], 'exact': list(xs), 'constant': [1.] * n}
+        ctx.count(sx_str(c), True)
+        for lab, sol in sols:
+            name = ''.join(chr(x) for x in lab)
+            v = [float(undy(x)) if undy(x) is not None else float('nan') for x in sol]
+            parts = name.split(':')
+            entry = ':'.join(p_ for p_ in parts if p_ and p_ not in g_named)
+            gname = next((p_ for p_ in parts if p_ in g_named), None)
+            if 'Matrix::kriging' in name and 'WithGuess' not in name or name.startswith('PrecisionOpMultiConditionalCs'):
+                tol = 1e-12 * cond * xn + 1e-13 * xn                                    # Cholesky
+            elif name.startswith('PrecisionOpMultiConditional::evalInverse'):
+                if gname is None: tol = 3 * ninv * 1e-7 * math.sqrt(nb) + 1e-12 * cond * xn             # |r|^2 <= 1e-14 |b|
+                else:
+                    g = g_named[gname]
+                    r0 = math.sqrt(sum((sum(Mm[a][k] * g[k] for k in range(n)) - b[a]) ** 2 for a in range(n)))
+                    tol = 3 * ninv * 1e-7 * max(r0, 1e-300) + 1e-11 * cond * xn                           # |r|^2 <= 1e-14 |r0|^2
+            else:
+                tol = 3 * ninv * 1e-10 * nb + 1e-11 * cond * xn                                           # Eigen CG, relative residual 1e-10
+            err = max(abs(x - y) for x, y in zip(v, xs)) if len(v) == n else float('inf')
+            if not err <= tol:
+                viol('spde-solve:' + entry, '%s%s returns a vector that differs from the solution of (Q + A\'A/s2) x = A\'z/s2 by %.3g (tolerance %.3g, '
+                     'condition number %.3g)%s' % (name, '', err, tol, cond, '; with the zero guess it returns zero' if gname == 'zero' and max(abs(x) for x in v) == 0 else ''), rep)
+        ctx.sample({'kind': 'entry-points', 'n': n, 'entries': len(sols), 'cond': cond}, maxn=22)
 
 def load_corpus(ctx):
     p = os.path.join(VERIF, 'corpus', ctx.pid + '.sx')
